@@ -510,6 +510,10 @@ long long c_voronoi(long long nrows, long long ncols,
     long long i, j, jmin, ierr, idxcell;
     double xy[2], dx, dy, dist, distmin;
 
+    /* At least one point is needed */
+    if(npoints < 1)
+        return GRID_ERROR + __LINE__;
+
     for(j=0; j<npoints; j++)
         weights[j] = 0;
 
@@ -517,8 +521,6 @@ long long c_voronoi(long long nrows, long long ncols,
     {
         /* Get cell number for coordinates */
         idxcell = idxcells_area[i];
-        xy[0] = xypoints[2*i];
-        xy[1] = xypoints[2*i+1];
 
         ierr = getcoord(nrows, ncols, xll, yll, csz, idxcell, xy);
         if(ierr>0)
